@@ -18,7 +18,7 @@ WHAT = {
 }
 ACTIONS = ["StartDoc", "PickLimit", "RunTest", "OnCode", "ValidateDoc", "EndDoc", "Finish"]
 FOCUS_ACTIONS = {"C05": ["OnUnknown"], "C14": ["OnTimeout"], "C15": ["OnSkip"], "C20": ["OnSkip", "OnDetached", "OnUnknown"]}
-QUICK = {"C05": 260, "C14": 120, "C15": 220, "C20": 220}
+QUICK = {"C05": 260, "C14": 170, "C15": 220, "C20": 220}
 THOROUGH = {"C05": 4000, "C14": 200, "C15": 3000, "C20": 3000}
 
 
@@ -77,7 +77,8 @@ def run(prop, tier, replay=None):
             chosen = allsc
         else:
             # always keep the small ones (single-test documents), sample the rest
-            small = [v for v in allsc if sum(len(d["tests"]) for d in v["sc"]["docs"]) <= 1]
+            rare = lambda v: v["sc"]["noshell"] or any(d["fault"] != "no" or any(t["dur"] > 0 for t in d["tests"]) for d in v["sc"]["docs"])
+            small = [v for v in allsc if sum(len(d["tests"]) for d in v["sc"]["docs"]) <= 1 or (prop == "C20" and rare(v))]
             rest = [v for v in allsc if v not in small]
             chosen = small + rnd.sample(rest, max(0, want - len(small)))
         cov["scenarios_enumerated"] = len(allsc)
